@@ -29,10 +29,21 @@ type realNode struct {
 	electrum *sim.ElectrumFacade
 	useEl    bool
 	rpcDelay time.Duration // latency of every chain backend request (0 = none)
+	mu       sync.Mutex
 }
 
 // start boots a new incarnation with fresh real watchers.
 func (rn *realNode) start(noRecover bool) error {
+	rn.mu.Lock()
+	err := rn.startLocked()
+	rn.mu.Unlock()
+	if err == nil && !noRecover {
+		rn.n.Recover()
+	}
+	return err
+}
+
+func (rn *realNode) startLocked() error {
 	if rn.cancel != nil {
 		rn.cancel()
 	}
@@ -64,20 +75,22 @@ func (rn *realNode) start(noRecover bool) error {
 	if err := lw.StartWatchingTxs(); err != nil {
 		return err
 	}
-	if !noRecover {
-		rn.n.Recover()
-	}
 	return nil
 }
 
 // notify tells the electrum facade about the new tip (the rpc watchers poll on their own).
 func (rn *realNode) notify() {
-	if rn.electrum != nil {
-		rn.electrum.NotifyTip()
+	rn.mu.Lock()
+	el := rn.electrum
+	rn.mu.Unlock()
+	if el != nil {
+		el.NotifyTip()
 	}
 }
 
 func (rn *realNode) stop() {
+	rn.mu.Lock()
+	defer rn.mu.Unlock()
 	if rn.cancel != nil {
 		rn.cancel()
 	}
@@ -279,6 +292,11 @@ type raceReport struct {
 	pair  string // unordered pair of the innermost peerswap frames
 	inPS  bool   // both stacks contain a peerswap (non-verif) frame
 	verif bool   // a verif hook frame is involved
+	// thirdParty names the function performing a racing access when that function is not peerswap code
+	// (a library's own unsynchronised state, e.g. go-secp256k1-zkp's shared context cache)
+	thirdParty string
+	// harnessAccess: one of the racing accesses is performed by harness code
+	harnessAccess bool
 }
 
 func raceLogFiles() []string {
@@ -336,9 +354,33 @@ func parseRaceReports(text string) []raceReport {
 			continue
 		}
 		rr := raceReport{text: p, inPS: true}
-		var inner []string
+		var inner, thirdParty []string
 		for _, st := range stacks[:2] {
 			found := ""
+			// the function performing the racing access: first frame that is not runtime / sync machinery
+			for _, f := range st {
+				first := f
+				if i := strings.Index(first, "/"); i >= 0 {
+					first = first[:i]
+				} else if i := strings.Index(first, "("); i >= 0 {
+					first = first[:i]
+				}
+				if strings.HasPrefix(f, "verifharness/") {
+					rr.harnessAccess = true
+					break
+				}
+				if !strings.Contains(first, ".") || !strings.Contains(f, "/") {
+					continue // standard library (no domain in the import path)
+				}
+				switch {
+				case strings.Contains(f, "github.com/elementsproject/peerswap/"):
+				case strings.HasPrefix(f, "verifharness/"):
+					rr.harnessAccess = true
+				default:
+					thirdParty = append(thirdParty, fnName(f))
+				}
+				break
+			}
 			for _, f := range st {
 				if strings.Contains(f, "github.com/elementsproject/peerswap/") {
 					name := fnName(f)
@@ -358,6 +400,11 @@ func parseRaceReports(text string) []raceReport {
 		}
 		sort.Strings(inner)
 		rr.pair = strings.Join(inner, "~")
+		if len(thirdParty) == 2 {
+			// both racing accesses are performed by library code on the library's own state
+			sort.Strings(thirdParty)
+			rr.thirdParty = strings.Join(thirdParty, "~")
+		}
 		res = append(res, rr)
 	}
 	return res
